@@ -9,7 +9,7 @@ neither table (and not in a trusted dependency crate) is INCONCLUSIVE.
 """
 import os, re
 from .core import (callee_of, callee_path, op_const, const_value, strip_refs, strip_payload, show_expr,
-                   edge_dominates, switch_edges_for_variant, bool_edge, expr_mentions)
+                   edge_dominates, switch_edges_for_variant, bool_edge, expr_mentions, option_guards)
 from .engine import Inconclusive, VERIF
 
 API = os.path.join(VERIF, "spec", "api")
@@ -232,24 +232,11 @@ def j_unwrap(facts, b, bi, t, variant):
     if variant == "Some" and always_some(recv):
         return "J2 constructor flow: receiver is Some on every path (%s)" % show_expr(strip_refs(recv))[:120]
     r0 = strip_refs(recv)
-    for sb in b.reachable():
-        tt = b.blocks[sb]["term"]
-        if tt["k"] != "SwitchInt":
-            continue
-        e = b.trace(tt["discr"])
-        if e[0] == "discr" and strip_refs(e[1]) == r0 and r0[0] not in ("phi", "partial", "undef"):
-            r = switch_edges_for_variant(b, sb, variant)
-            if r and r[1] and edge_dominates(b, sb, r[0], bi):
-                return "J1 discriminant guard: dominated by the %s edge of the switch at bb%d on the same value" % (variant, sb)
-            # the None/Err edge leaves (returns) and the other edge dominates
-            other = "None" if variant == "Some" else "Err"
-            ro = switch_edges_for_variant(b, sb, other)
-            if ro:
-                # blocks reachable without taking the `other` edge
-                tgt_other = ro[0]
-                for lbl, tg in b.edges(sb):
-                    if tg != tgt_other and edge_dominates(b, sb, tg, bi):
-                        return "J1 discriminant guard: dominated by the non-%s edge of the switch at bb%d on the same value" % (other, sb)
+    if r0[0] in ("phi", "partial", "undef"):
+        return None
+    for (sb, t_some, t_none) in option_guards(b, lambda x: x == r0):
+        if edge_dominates(b, sb, t_some, bi) and t_some != t_none:
+            return "J1 discriminant guard: dominated by the %s edge of the test at bb%d on the same value" % (variant, sb)
     return None
 
 
